@@ -13,7 +13,7 @@ from .smt import solve_all
 from .source import SourceIndex
 from .verify import verify_function
 
-CONTRACT_MODULES = ["contracts.evaluation", "contracts.constraints"]
+CONTRACT_MODULES = ["contracts.evaluation", "contracts.constraints", "contracts.parser_state", "contracts.parser_cache"]
 
 
 def load_contracts(mods=None):
